@@ -209,4 +209,4 @@ def eval_case(case):
 
 def parts(tier):
     t = tier == 'thorough'
-    return [Part('libraries', eval_case, strategy=strategy, examples=30000 if t else 1600)]
+    return [Part('libraries', eval_case, strategy=strategy, examples=60000 if t else 1600)]
